@@ -1154,7 +1154,8 @@ qb_log_ctl2(int32_t t, enum qb_log_conf c, qb_log_ctl2_arg_t arg_not4directuse)
 		break;
 	case QB_LOG_CONF_MAX_LINE_LEN:
 		/* arbitrary limit, but you'd be insane to go further */
-		if (arg_i32 > QB_LOG_ABSOLUTE_MAX_LEN) {
+		/* and the formatter needs room for "..." and the terminator */
+		if (arg_i32 > QB_LOG_ABSOLUTE_MAX_LEN || arg_i32 < 4) {
 			rc = -EINVAL;
 		} else {
 			conf[t].max_line_length = arg_i32;
